@@ -179,6 +179,17 @@ pub struct OracleCtx<'a> {
     /// ids of jobs whose last execution attempt (in an earlier evaluation of the chain) failed or
     /// was killed by an abort, with no successful execution since
     pub tainted: Option<&'a BTreeSet<String>>,
+    /// what the simulator itself saw in the earlier evaluations of the chain (independent of any record)
+    pub truth: Option<&'a Truth>,
+}
+
+/// Ground truth kept by the chain runner across evaluations.
+#[derive(Default, Clone, Debug)]
+pub struct Truth {
+    /// job id -> (part -> value) read by its last successful execution
+    pub consumed: BTreeMap<String, BTreeMap<String, u64>>,
+    /// part -> value written by the last successful execution of its producer
+    pub produced: BTreeMap<String, u64>,
 }
 
 /// all end-of-evaluation oracles; returns violations and bumps probes
@@ -275,6 +286,45 @@ pub fn check_eval(ctx: &OracleCtx, out: &EvalOut, plan: &EvalPlan, probes: &mut 
                     )),
                     Err(_) => probe(probes, "ambiguous_record_exempted"),
                 },
+            }
+        }
+    }
+
+    // C03, ground truth: whatever the records say, a skipped job's last successful execution must
+    // have read exactly the values its direct upstreams currently have (catches records that were
+    // corrupted in an earlier evaluation and now agree with the current outputs by accident)
+    if let Some(truth) = ctx.truth {
+        for j in 0..n {
+            if out.disp[j] != Disp::Skipped || !live[j] {
+                continue;
+            }
+            let job = &gv.jobs[j];
+            let tc = match truth.consumed.get(&job.id) {
+                Some(tc) => tc,
+                None => continue,
+            };
+            'ups: for (u, consumed) in job.ups.iter() {
+                for p in consumed {
+                    let now = match out.disp[*u] {
+                        Disp::ExecOk => out.produced_vals.get(p),
+                        Disp::Skipped => truth.produced.get(p),
+                        _ => None,
+                    };
+                    if let (Some(a), Some(b)) = (tc.get(p), now) {
+                        probe(probes, "c03_ground_truth_inputs_compared");
+                        if a != b {
+                            vio.push(v(
+                                "C03",
+                                "skipped-while-consumed-input-differs",
+                                format!(
+                                    "{} skipped although its last successful execution read another value of {} than upstream {} ({:?}) has now",
+                                    job.id, p, gv.jobs[*u].id, out.disp[*u]
+                                ),
+                            ));
+                            break 'ups;
+                        }
+                    }
+                }
             }
         }
     }
